@@ -530,6 +530,31 @@ class Inliner:
         self.inlined.extend(sorted(set(recv.values())))
         return g
 
+    def _named_indices(self, f):
+        """`cell[_NAME]` with `_NAME = <int>` a module-level constant assigned once  ->  `cell[<int>]`"""
+        consts: Dict[str, int] = {}
+        seen: Dict[str, int] = {}
+        for st in self.mod.tree.body:
+            for t, v in (targets_values(st) if isinstance(st, (ast.Assign, ast.AnnAssign)) else []):
+                if isinstance(t, ast.Name):
+                    seen[t.id] = seen.get(t.id, 0) + 1
+                    if isinstance(v, ast.Constant) and isinstance(v.value, int) and not isinstance(v.value, bool):
+                        consts[t.id] = v.value
+        consts = {k: v for k, v in consts.items() if seen.get(k) == 1}
+        if not consts:
+            return f
+        local = {x.id for x in ast.walk(f) if isinstance(x, ast.Name) and isinstance(x.ctx, ast.Store)} | {a.arg for a in f.args.args}
+
+        class T(ast.NodeTransformer):
+            def visit_Subscript(self, n):
+                self.generic_visit(n)
+                if isinstance(n.slice, ast.Name) and n.slice.id in consts and n.slice.id not in local:
+                    n.slice = ast.copy_location(ast.Constant(value=consts[n.slice.id]), n.slice)
+                return n
+        g = T().visit(f)
+        ast.fix_missing_locations(g)
+        return g
+
     def function(self, func):
         f = clone(func)
         self.loads, self.stores = {}, {}
@@ -539,6 +564,7 @@ class Inliner:
                 d[x.id] = d.get(x.id, 0) + 1
         f.body = self._stmts(f.body, 0)
         f = self._cells(f)
+        f = self._named_indices(f)
         ast.fix_missing_locations(f)
         return f
 
@@ -949,8 +975,8 @@ def marker_locals(g) -> List[str]:
     for n in g.nodes:
         if n.kind == "stmt" and n.ast is not None:
             for t, v in targets_values(n.ast):
-                if isinstance(t, ast.Name) and v is not None and (isinstance(v, ast.Constant) or (isinstance(v, (ast.Name, ast.Attribute)) and dotted(v)
-                                                                                                  and dotted(v).split(".")[0] not in local)):
+                if isinstance(t, ast.Name) and v is not None and (isinstance(v, (ast.Constant, ast.Tuple, ast.List, ast.Dict, ast.Set))
+                                                                  or (isinstance(v, (ast.Name, ast.Attribute)) and dotted(v) and dotted(v).split(".")[0] not in local)):
                     stores[t.id] = True
     tested = set()
     for n in g.nodes:
@@ -1008,6 +1034,10 @@ def fpath(g, srcs, dsts, avoid=(), exc: bool = False, strict: bool = True, throu
         """True/False, ("k", const), ("n", marker name), "OTHER"; None = unknown"""
         if isinstance(v, ast.Constant):
             return v.value if isinstance(v.value, bool) else ("k", v.value)
+        if isinstance(v, (ast.Tuple, ast.List, ast.Set)):
+            return ("k", ()) if not v.elts else ("k", "non-empty")      # `returned = ()` ... `returned = (value,)` ... `if returned:`
+        if isinstance(v, ast.Dict):
+            return ("k", ()) if not v.keys else ("k", "non-empty")
         if isinstance(v, (ast.Name, ast.Attribute)) and dotted(v) and dotted(v).split(".")[0] not in local:
             return ("n", dotted(v).split(".")[-1])
         return "OTHER"
